@@ -202,15 +202,19 @@ func (st *State) heapGet(key, sort string) *Term {
 	}
 	t := Sym(name, sort)
 	st.heap[key] = t
-	if heapIsRef[key] {
+	if heapIsRef[key] || strings.HasSuffix(key, "#arr") {
 		// heap well-formedness: every reference stored in the heap is allocated
 		bound := st.allocTerm()
 		if strings.HasPrefix(name, "H0|") {
 			bound = alloc0()
 		}
 		r := BoundVar("wf_r", SInt)
-		if strings.HasPrefix(sort, "(Array Int (Array Int ") {
-			i := BoundVar("wf_i", SInt)
+		if strings.HasPrefix(sort, "(Array Int (Array ") {
+			ksort := SInt
+			if strings.HasPrefix(sort, "(Array Int (Array "+SSeq+" ") {
+				ksort = SSeq
+			}
+			i := BoundVar("wf_i", ksort)
 			x := Select(Select(t, r), i)
 			st.assume(Forall([]*Term{r, i}, Implies(And(Ge(r, IntLit(0)), Lt(r, bound)), And(Ge(x, IntLit(0)), Lt(x, bound))), x))
 		} else if sort == arrSort(SInt, SInt) {
